@@ -35,7 +35,8 @@ func (a Addr) Network() string {
 }
 
 func (a Addr) String() string {
-	return fmt.Sprintf("%s:%d", a.IP.String(), a.Port)
+	// host:port as net.SplitHostPort parses it: IPv6 addresses are bracketed
+	return netip.AddrPortFrom(a.IP, a.Port).String()
 }
 
 func (a *Addr) UnmarshalText(x []byte) error {
